@@ -14,7 +14,11 @@
         - implicit duration: par container = the latest end of its children (0 without children,
           indefinite as soon as one child is indefinite); seq container = the end of its last child;
           an anonymous span (character content of p / span), br, set and region: indefinite in a par
-          container, zero in a seq container;
+          container, zero in a seq container (set has no timed children: its content model is metadata only);
+        - children that are not in the timed vocabulary (tt:metadata and the ttm: elements, elements of other
+          namespaces, unknown tt: elements, comments, processing instructions) take no part in timing, whatever
+          their attributes and their content; the text that follows them is character content of the parent
+          like any other text;
    4. [visible]: the character content presented at time t (region by region, in document order):
       the text nodes all of whose ancestors are active at t (intervals clipped by the parent's), are
       selected into the region, and are not removed by tts:display="none" (specified or set).
@@ -145,6 +149,8 @@ Definition s_kind (tag : qname) (attrs : list (qname * text)) : option ekind :=
 Definition s_mixed (k : ekind) : bool := match k with KP | KSpan | KRb | KRt | KRp => true | _ => false end.
 (* elements without timed element content of their own: indefinite in par, zero in seq *)
 Definition s_atomic (k : ekind) : bool := match k with KBr | KSet | KRegion => true | _ => false end.
+(* set has no timed children at all (TTML2 set: Metadata.class* only) *)
+Definition s_childless (k : ekind) : bool := match k with KSet => true | _ => false end.
 
 Definition omax (a b : option Q) : option Q :=
   match a, b with Some x, Some y => Some (Qmax x y) | _, _ => None end.
@@ -210,6 +216,7 @@ Section Timing.
         | None => Some 0%Q
         | Some k =>
           if s_atomic k && negb pseq then None else
+          if s_childless k then Some 0%Q else
           if s_is_seq attrs then seq_dur interval cs 0%Q
           else par_dur interval (s_mixed k) cs (if s_mixed k && has_text txt then None else Some 0%Q)
         end in
